@@ -41,7 +41,7 @@ func (c12) Components() map[string][]string {
 	}
 }
 func (c12) ProbeNames() []string {
-	return []string{"layout-whole", "layout-gpt", "layout-mbr", "blank", "over-stale", "type-fat12", "type-fat16", "type-fat32", "type-ext4", "type-iso9660", "type-squashfs", "create-refused"}
+	return []string{"layout-whole", "layout-gpt", "layout-mbr", "blank", "over-stale", "type-fat12", "type-fat16", "type-fat32", "type-ext4", "type-iso9660", "type-squashfs", "create-refused", "boundary-sweep"}
 }
 func (c12) Budget(tier string) (int, int, int) {
 	if tier == "thorough" {
@@ -58,6 +58,21 @@ func (c12) Gen(r *core.Rng, tier string, idx int) *core.Trace {
 	t.Cfg["layout"] = int64(r.PickW(40, 30, 30))
 	t.Cfg["lss"] = core.PickOf[int64](r, 512, 512, 512, 2048, 4096)
 	t.Cfg["size"] = c12Sizes[r.Intn(len(c12Sizes))] + 512*r.Range(0, 3)
+	if r.Chance(25) {
+		// FAT type boundary sweep: consecutive sector counts around the sizes at which the cluster count crosses
+		// 4085 (FAT12|FAT16) and 65525 (FAT16|FAT32), for every plausible sectors-per-cluster value
+		thr := core.PickOf[int64](r, 4085, 65525)
+		spc := core.PickOf[int64](r, 1, 2, 4, 8, 16, 32, 64)
+		win := int64(200)
+		if thr == 65525 {
+			win = 1300
+		}
+		t.Ops = []core.Op{{K: "sweep", P: core.PickOf(r, "fat12", "fat16", "fat32", "fat16"), A: thr*spc + r.Range(0, win+spc), B: 48}}
+		if thr == 65525 && spc > 8 {
+			t.Ops[0].B = 12 // large sparse volumes: fewer per run
+		}
+		return t
+	}
 	n := r.PickW(8, 42, 35, 15)
 	for i := 0; i < n; i++ {
 		ty := c12Types[r.Intn(len(c12Types))]
@@ -100,8 +115,98 @@ func fsTypeOf(name string) filesystem.Type {
 	return filesystem.TypeSquashfs
 }
 
+// c12Sweep creates a FAT filesystem of the given type on whole devices of consecutive sector counts and demands
+// that each one the library agreed to create is recognised as that type again and holds the file written to it.
+func c12Sweep(t *core.Trace, res *core.Result, o core.Op) *core.Result {
+	ty := o.P
+	if ty != "fat12" && ty != "fat16" && ty != "fat32" {
+		return res
+	}
+	n := o.B
+	if n < 1 {
+		n = 1
+	}
+	if n > 64 {
+		n = 64
+	}
+	content := core.PatternBytes(uint64(o.A), 1500)
+	for k := int64(0); k < n; k++ {
+		sectors := o.A + k
+		if sectors < 64 || sectors > 6<<20 {
+			continue
+		}
+		size := sectors * 512
+		d := simdisk.New(size)
+		d.NoStats = true
+		dk := &disk.Disk{Backend: d, Size: size, LogicalBlocksize: 512, PhysicalBlocksize: 512, DefaultBlocks: true}
+		var fs filesystem.FileSystem
+		var err error
+		trig := "sweep(" + ty + ")"
+		fail := func(clause, locus, detail string) *core.Result {
+			nt := t.Clone()
+			nt.Ops = []core.Op{{K: "sweep", P: ty, A: sectors, B: 1}}
+			res.Narrow = nt
+			res.V = &core.Violation{Clause: "C12." + clause, Trigger: trig, Locus: locus, Detail: detail, OpIndex: 0}
+			return res
+		}
+		pk, pv, loc, _ := core.Guard(func() {
+			fs, err = dk.CreateFilesystem(disk.FilesystemSpec{Partition: 0, FSType: fsTypeOf(ty), VolumeLabel: "SWEEP"})
+			if err != nil {
+				return
+			}
+			var f filesystem.File
+			f, err = fs.OpenFile("/HELLO.TXT", os.O_CREATE|os.O_RDWR)
+			if err != nil {
+				return
+			}
+			_, err = f.Write(content)
+			f.Close()
+		})
+		res.Evals++
+		res.Steps++
+		if pk {
+			return fail("panic", loc, fmt.Sprintf("%d sectors: %v", sectors, pv))
+		}
+		if err != nil {
+			res.Probe("create-refused")
+			continue
+		}
+		res.Probe("type-" + ty)
+		res.Probe("boundary-sweep")
+		res.Hashes = append(res.Hashes, core.Mix(core.HashStr(ty), uint64(sectors)))
+		var dk2 *disk.Disk
+		var fs2 filesystem.FileSystem
+		if pk, pv, loc, _ := core.Guard(func() {
+			dk2, err = diskfs.OpenBackend(d.Clone(), diskfs.WithSectorSize(diskfs.SectorSize(512)))
+			if err == nil {
+				fs2, err = dk2.GetFilesystem(0)
+			}
+		}); pk {
+			return fail("panic", loc, fmt.Sprintf("%d sectors: %v", sectors, pv))
+		}
+		if err != nil {
+			return fail("not-recognised", "disk.(*Disk).GetFilesystem", fmt.Sprintf("%s created on a device of %d sectors (%d bytes) is not recognised: %v", ty, sectors, size, err))
+		}
+		if got := typeName(fs2.Type()); got != ty {
+			return fail("wrong-type", "disk.(*Disk).GetFilesystem", fmt.Sprintf("%s created on a device of %d sectors is reported as %s", ty, sectors, got))
+		}
+		var data []byte
+		if pk, pv, loc, _ := core.Guard(func() { data, err = fs2.ReadFile("/HELLO.TXT") }); pk {
+			return fail("panic", loc, fmt.Sprintf("%d sectors: readfile: %v", sectors, pv))
+		}
+		if err != nil || !bytes.Equal(data, content) {
+			return fail("contents", "filesystem.ReadFile", fmt.Sprintf("%s on %d sectors: ReadFile err=%v, %s", ty, sectors, err, diffDesc(data, content)))
+		}
+	}
+	res.Sample = fmt.Sprintf("sweep %s from %d sectors, %d sizes", ty, o.A, n)
+	return res
+}
+
 func (p c12) Exec(t *core.Trace) *core.Result {
 	res := core.NewResult()
+	if len(t.Ops) > 0 && t.Ops[0].K == "sweep" {
+		return c12Sweep(t, res, t.Ops[0])
+	}
 	layout := t.I("layout") % 3
 	size := t.I("size")
 	if size < 64<<10 {
